@@ -25,8 +25,9 @@ static std::string render(const TV& a) {
   if (n.leaf) return n.s + "@" + std::to_string(a.get_line()) + ":" + std::to_string(a.get_column());
   return n.s;
 }
+static bool g_probe = false;   // during the termination probe the values stay empty (a looping parse would otherwise build ever longer strings)
 static TV mk_node(int rule, std::initializer_list<std::string> ch) {
-  node n; n.s = "r" + std::to_string(rule) + "("; bool first = true;
+  node n; if (g_probe) return TV(n, ctpg::source_point{}); n.s = "r" + std::to_string(rule) + "("; bool first = true;
   for (auto& c : ch) { if (!first) n.s += ","; n.s += c; first = false; }
   n.s += ")"; return TV(n, ctpg::source_point{});
 }
@@ -134,10 +135,12 @@ template<class P> static void run_case(P& p, const gcase& c, std::ostream& o) {
       // probe: a verbose parse into a line-limited stream; a parse that does not end within 200000 lines is reported as LOOP
       bool loops = false; ctxlog lg; limited_buf lb(200000); std::ostream ls(&lb); ls.exceptions(std::ios_base::badbit);
       ctpg::parse_options vo = opt; vo.set_verbose(true);
+      g_probe = true;
       try { p.context_parse(lg, vo, ctpg::buffers::string_view_buffer(in.bytes), ls); }
       catch (const line_limit&) { loops = true; }
       catch (const std::ios_base::failure&) { loops = lb.lines > lb.limit; }
       catch (const std::exception&) {}
+      g_probe = false;
       if (loops) { o << "RES LOOP\nCTX\nLEXCALLS\nERR 0\n\nENDERR\nRES2 LOOP\nERR2 0\n\nENDERR2\nRES3 LOOP\n"; continue; }
     }
     {
